@@ -35,18 +35,56 @@ const CLASSES: [&str; 4] = ["a", "A", "", "zz"];
 const METHODS: [&str; 4] = ["m", "p", "", "zz"];
 const TRACE: &str = "a: boom\n    at a.m(F.java:3)\n    at a.m(F.java:18446744073709551615)\n    at a.m(F.java:0)\nCaused by: A: x\n\tat a.p(Unknown Source:5)\n    at .(:4294967296)\n";
 
+/// signatures beyond small sizes: array dimensions, parameter counts and class-name lengths around 127/128/255/256 and far beyond
+pub fn long_signatures() -> Vec<String> {
+    let mut v = Vec::new();
+    for n in [127usize, 128, 129, 255, 256, 257, 1000, 70000] {
+        v.push(format!("(){}I", "[".repeat(n)));
+        v.push(format!("({}La/b;I)V", "[".repeat(n)));
+        v.push(format!("({})V", "I".repeat(n)));
+        v.push(format!("(L{};)L{};", "n".repeat(n), "p/".repeat(n / 2 + 1)));
+        v.push(format!("(L{}", "\u{65e5}".repeat(n)));
+    }
+    v
+}
+
 /// the whole pipeline on one mapping; Err((site, description))
 fn pipeline(bytes: &[u8], ab: &mut Aligned, obs: &mut u64, out_hash: &mut u64) -> Result<(), (String, String)> {
+    // query names: the fixed ones plus (up to 12 of) the class and method names the mapping itself mentions
+    let mut classes: Vec<String> = CLASSES.iter().map(|s| s.to_string()).collect();
+    let mut methods: Vec<String> = METHODS.iter().map(|s| s.to_string()).collect();
+    let _ = guarded(|| {
+        for r in cur::ProguardMapping::new(bytes).iter().flatten() {
+            match r {
+                cur::ProguardRecord::Class { original, obfuscated } => {
+                    for n in [original, obfuscated] {
+                        if classes.len() < 16 && n.len() < 300 && !classes.iter().any(|c| c == n) {
+                            classes.push(n.to_string());
+                        }
+                    }
+                }
+                cur::ProguardRecord::Method { original, obfuscated, .. } => {
+                    for n in [original, obfuscated] {
+                        if methods.len() < 16 && n.len() < 300 && !methods.iter().any(|c| c == n) {
+                            methods.push(n.to_string());
+                        }
+                    }
+                }
+                _ => {}
+            }
+        }
+    });
+    let (classes, methods) = (&classes, &methods);
     let r = guarded(|| {
         cur::with_subjects(bytes, ab, |m, mp, c, _| {
             let mut v: Vec<Fr<'_>> = Vec::new();
             let mut h = 0u64;
             let subs: [&dyn Subj; 3] = [m, mp, c];
             for s in subs {
-                for class in CLASSES {
+                for class in classes.iter().map(|s| s.as_str()) {
                     h ^= h64(&s.remap_class(class));
                     h ^= h64(&s.remap_throwable(class, Some("m")));
-                    for method in METHODS {
+                    for method in methods.iter().map(|s| s.as_str()) {
                         h ^= h64(&s.remap_method(class, method));
                         for line in H_LINES {
                             s.remap_frame(class, method, line, Some("F.java"), None, &mut v);
@@ -173,6 +211,8 @@ fn str_dfs(s: &mut String, left: usize, toks: &[&str], m: &dyn Subj, c: &dyn Sub
 const TEXT_MAPPING: &[u8] = b"p.A -> a:\n    1:3:void x.Y.q():10:12 -> a\n    1:3:void p():20 -> a\n\xc3\xa9.B -> \xc3\xa9:\n    void r() -> a\n";
 
 enum Work {
+    Family(usize, usize),
+    LongQueries,
     Tok(Vec<usize>, usize),
     Struct1(usize, usize),
     Struct2(usize),
@@ -213,6 +253,15 @@ pub fn run(tier: Tier) -> i32 {
         }
     }
     work.push(Work::Scale);
+    work.push(Work::LongQueries);
+    let fams: Vec<crate::e1::ListSpace> = vec![crate::families::scale_family(true), crate::families::unicode_family()];
+    for (fi, f) in fams.iter().enumerate() {
+        let mut i = 0;
+        while i < f.files.len() {
+            work.push(Work::Family(fi, i));
+            i += 64;
+        }
+    }
     let acc = par_run(&work, &budget, |w, acc, budget| {
         let mut ab = Aligned::new(&[]);
         match w {
@@ -257,13 +306,38 @@ pub fn run(tier: Tier) -> i32 {
                 }
             }
             Work::Scale => scale_family(acc),
+            Work::Family(fi, start) => {
+                for (lines, term) in fams[*fi].files.iter().skip(*start).take(64) {
+                    if budget.exceeded() {
+                        return;
+                    }
+                    let bytes = print_file(lines, *term);
+                    visit(&bytes, &mut ab, acc, &|| file_to_json(lines, *term));
+                    acc.count("(e) scale / character-class family mappings through the pipeline", 1);
+                }
+            }
+            Work::LongQueries => {
+                let r = cur::with_subjects(TEXT_MAPPING, &mut ab, |m, _, c, _| {
+                    for s in long_signatures() {
+                        text_visit(&s, m, c, true, acc);
+                    }
+                    let long = "m".repeat(1100);
+                    for t in [format!("a: {}\nCaused by: a: {}\n    at a.a({}.java:1)\n", long, long, long), format!("{}\n", "z".repeat(70000)), format!("    at {}.a(F.java:1)\n", "p.".repeat(40000))] {
+                        text_visit(&t, m, c, false, acc);
+                    }
+                    acc.count("(f) long signatures and long trace lines", 1);
+                });
+                if let Err(e) = r {
+                    acc.violation("error:text-mapping", 0, || (e.clone(), json!({"kind":"bytes","text":esc(TEXT_MAPPING)})));
+                }
+            }
         }
     });
     let meta = RunMeta {
         prop: "C13",
         tier,
         level: "model_checking",
-        rule: format!("(a) every string of <= {} tokens over 19 hostile tokens (numerals 0, 2^32-2, 2^32-1, 2^32, 2^64-1, 2^64, 30 digits; invalid UTF-8; Latin-1 'numeric' byte; empty names; empty sourceFile) as a mapping; (b) class line + 1 entry with all four numbers (and every combination of the optional originals) from 7 hostile numerals ({} entries), + all pairs of entries over a {}-numeral sub-alphabet; each through the whole pipeline (mapper with/without index, cache written to memory and parsed, class/method/frame queries with lines 0,1,3,5,6,2^32-1,2^32,2^64-2,2^64-1, by-params, text and typed trace, signatures); (d) every string of <= {} symbols over a 10-character descriptor alphabet as signature and over 12 trace tokens (multi-byte character, tab, 'Caused by: ', LF) as trace text / frame / throwable. Oracle: no panic (overflow checks compiled in), no Err. Beyond the bound (not part of the exhaustive claim): scale family cause depth / frame count in {{64, 4096, 200000}} in a subprocess. distinct = distinct answer digests", tdepth, e_full.len(), small.len(), sdepth),
+        rule: format!("(a) every string of <= {} tokens over 19 hostile tokens (numerals 0, 2^32-2, 2^32-1, 2^32, 2^64-1, 2^64, 30 digits; invalid UTF-8; Latin-1 'numeric' byte; empty names; empty sourceFile) as a mapping; (b) class line + 1 entry with all four numbers (and every combination of the optional originals) from 7 hostile numerals ({} entries), + all pairs of entries over a {}-numeral sub-alphabet; each through the whole pipeline (mapper with/without index, cache written to memory and parsed, class/method/frame queries with lines 0,1,3,5,6,2^32-1,2^32,2^64-2,2^64-1, by-params, text and typed trace, signatures); (d) every string of <= {} symbols over a 10-character descriptor alphabet as signature and over 12 trace tokens (multi-byte character, tab, 'Caused by: ', LF) as trace text / frame / throwable. Oracle: no panic (overflow checks compiled in), no Err. (e) every mapping of the scale family (classes of up to 129 entries, 301 classes, 100-deep inline groups, names up to 65537 bytes) and of the character-class family (105 special characters, sort pool, synthetic-file name shapes) through the pipeline with query names taken from the mapping; (f) signatures with 127..70000 array dimensions / parameters / name bytes and trace lines of 1.1 kB / 70 kB. Beyond the bound (not part of the exhaustive claim): scale family cause depth / frame count in {{64, 4096, 200000}} in a subprocess. distinct = distinct answer digests", tdepth, e_full.len(), small.len(), sdepth),
         bounds: json!({"token_depth": tdepth, "tokens": H_TOKENS.iter().map(|t| esc(t)).collect::<Vec<_>>(), "hostile_numerals": H_NUMS.iter().map(|n| n.to_string()).collect::<Vec<_>>(), "string_depth": sdepth}),
         assumptions: vec!["overflow checks and debug assertions are compiled into the subject (release profile of pgmc)".into()],
         trusted_base: vec!["rustc/std".into(), "catch_unwind + panic hook for attribution".into()],
